@@ -162,6 +162,19 @@ func (e *SpecEnv) lookupIdent(name string) (Val, bool) {
 			return v, true
 		}
 	}
+	if strings.HasSuffix(name, "@pre") && e.fr != nil {
+		// name@pre: value of a loop-carried variable at the head of the iteration being checked
+		base := strings.TrimSuffix(name, "@pre")
+		for _, li := range e.fr.loopList {
+			if li.prevVals != nil {
+				if v, ok := li.prevVals[base]; ok {
+					return v, true
+				}
+			}
+		}
+		// outside a back-edge check (loop entry) it is the current value
+		return e.lookupIdent(base)
+	}
 	if at := strings.Index(name, "@"); at > 0 && e.fr != nil {
 		// name@N: the loop-carried variable `name` of loop N
 		var n int
@@ -801,6 +814,27 @@ func (e *SpecEnv) trCall(x *ECall) Val {
 		return Val{T: c.fisNaN(e.tr(x.Args[0]).T), Ty: tBool}
 	case "isInf":
 		return Val{T: c.fisInf(e.tr(x.Args[0]).T, "0"), Ty: tBool}
+	case "sameObj":
+		// both slices/pointers refer to the same allocated object (backing array)
+		a, b := e.tr(x.Args[0]), e.tr(x.Args[1])
+		oa, ob := "", ""
+		for i, v := range []Val{a, b} {
+			var o string
+			switch v.Ty.Underlying().(type) {
+			case *types.Slice:
+				o = c.acc("sobj", v.T)
+			case *types.Pointer:
+				o = c.acc("pobj", v.T)
+			default:
+				return e.errorf("sameObj of %s", v.Ty)
+			}
+			if i == 0 {
+				oa = o
+			} else {
+				ob = o
+			}
+		}
+		return Val{T: fmt.Sprintf("(and (= %s %s) (not (= %s 0)))", oa, ob, oa), Ty: tBool}
 	case "isFin":
 		v := e.tr(x.Args[0])
 		switch c.mode {
